@@ -320,11 +320,44 @@ def _w5_narrow_then_shift(FA, out):
     return n
 
 
+def _w6_plus_one_in_T(FA, out):
+    """w6: `x + T::one()` computed in the generic element type of a tree: the largest value of the type is a legal symbol,
+    for it the addition overflows (panic in debug, 0 in release) -- `(sigma + T::one()).as_()` for `sigma.as_() + 1`."""
+    for f in FA.lib_fns():
+        pf = FA.closure_parent(f)
+        base = pf.get('_base', '')
+        if base not in TREE_BASES or not type_params(pf):
+            continue
+        tps = set(type_params(pf))
+        F = FA.fn(f)
+        F.dom()
+        for bi, t in F.calls():
+            fn = t['f']['fn']
+            if fn['name'] != 'add' or 'Add' not in fn.get('trait', '') or fn.get('self_ty') not in tps or len(t['args']) != 2:
+                continue
+            a, b = norm(F.operand_term(t['args'][0])), norm(F.operand_term(t['args'][1]))
+            is_one = lambda x: isinstance(x, tuple) and x[:1] == ('call',) and x[1].split('::')[-1] == 'one'
+            if not (is_one(a) or is_one(b)):
+                continue
+            other = b if is_one(a) else a
+            guarded = any(at[0] in ('<', '!=') and isinstance(at[2], tuple) and (contains(at[1], other) or contains(at[2], other)) and
+                          any(isinstance(st, tuple) and st[:1] == ('call',) and st[1].split('::')[-1] in ('max_value', 'MAX') for st in list(subterms(at[1])) + list(subterms(at[2])))
+                          for at in path_atoms(F, bi))
+            key = 'R-W|w6|%s' % fn_key(pf)
+            props = list(TREE_BASES.get(base, [])) + ['C19']
+            if guarded:
+                out.append(Inst('R-W', key, 'ok', t.get('line', ''), '`%s + one()` under a test against the maximum of the type' % show(other)[:40], props))
+            else:
+                out.append(Inst('R-W', key, 'violation', t.get('line', ''),
+                                '`%s + T::one()` is computed in the element type %s: for a sequence that contains the largest value of the type it overflows (the same numbers in a wider type build fine)' % (show(other)[:50], fn.get('self_ty')), props))
+
+
 def rule_W(FA):
     out = []
     seen = set()
     n_scanned = 0
     n_shr = _w5_narrow_then_shift(FA, out)
+    _w6_plus_one_in_T(FA, out)
     for f in FA.lib_fns():
         base = f.get('_base', '')
         tps = type_params(f)
